@@ -41,10 +41,10 @@ type pathExec struct {
 	tainted          bool
 	nsym             int
 	symOrder         bool
-	frozen      map[*value]string
-	guarded     map[*value]string
-	sharedMaps  map[*smap]string
-	guardedMaps map[*smap]string
+	frozen           map[*value]string
+	guarded          map[*value]string
+	sharedMaps       map[*smap]string
+	guardedMaps      map[*smap]string
 	lockDepth        int
 	asserted         int
 	pc               []*Term
